@@ -549,6 +549,18 @@ fn replay(p: &Program, w: usize, order: &[u32], path: &[Action], comp: Comp) -> 
         if map.content_count != p.adds.len() {
             return Err(("content count".into(), format!("the pack stores {} contents, {} were inserted", map.content_count, p.adds.len())));
         }
+        // C16 on this schedule: the hint decides how the content is stored, whatever the queues
+        // looked like when its cluster was closed (read from the bytes by the independent decoder)
+        for (i, (_len, c)) in p.adds.iter().enumerate() {
+            let Some((cl, _)) = map.contents.get(i).copied() else { break };
+            let Some(info) = map.clusters.iter().find(|x| x.id == cl) else { continue };
+            if *c && info.compression == 0 {
+                return Err(("a content inserted with the hint 'compress' is stored in an uncompressed cluster".into(), format!("content {i}: cluster {cl} has compression byte 0")));
+            }
+            if !*c && info.compression != 0 {
+                return Err(("a content inserted with the hint 'do not compress' is stored in a compressed cluster".into(), format!("content {i}: cluster {cl} has compression byte {}", info.compression)));
+            }
+        }
         let pack = jbk::reader::ContentPack::new(jbk::Reader::from(jbk::FileSource::open(&file).map_err(|e| ("open".to_string(), e.to_string()))?))
             .map_err(|e| ("created pack does not open".to_string(), e.to_string()))?;
         if pack.get_content_count().into_u32() as usize != p.adds.len() {
@@ -651,6 +663,16 @@ fn child(args: &Args) -> ! {
             if let Some(u) = &out.unforced {
                 rep.traces_validated -= 1;
                 unforced_n += 1;
+                if unforced_n == 6 && only.is_none() {
+                    // every free run costs the director's time limit: the model plainly does not
+                    // describe this implementation, the remaining replays would all be free runs
+                    rep.cap(&format!("W={w}: replays stopped after 6 free runs (the result oracles were evaluated on each of them)"));
+                    rep.case(Some(&id), "ok(free run: not the modelled trace)");
+                    if let Err((k, wt)) = out.verdict {
+                        rep.violation(&format!("C08 {k}"), &format!("W={w} program {} order {order:?}: {wt}", p.name), case.clone());
+                    }
+                    rep.finish(args);
+                }
                 if unforced_n == 1 {
                     rep.cap(&format!("W={w}: the pipeline model (pinned code: FIFO dispatch, back-pressure at 2W, clusters written in arrival order) does not describe this implementation, e.g. {u} in {case}: such replays are free runs, checked by the result oracles only"));
                 }
